@@ -1,0 +1,55 @@
+//go:build verif
+// +build verif
+
+package conversions
+
+// Contracts for the verification machinery in /verif (govc). Comment-only file:
+// it adds no executable code and is compiled only with the build tag `verif`.
+
+//@ props C07 C16 C13
+//@
+//@ spec func srcRate(h int, spot int, avg int) int = (h >= config.PIP10AverageActivation && spot > avg) ? avg : spot
+//@ spec func dstRate(h int, spot int, avg int) int = (h >= config.PIP10AverageActivation && spot < avg) ? avg : spot
+//@ spec func convSpec(h int, amt int, fr int, fa int, tr int, ta int) int = (amt * srcRate(h, fr, fa)) / dstRate(h, tr, ta)
+//@ spec func convOK(h int, amt int, fr int, fa int, tr int, ta int) bool =
+//@     amt >= 0 && fr != 0 && tr != 0 && (h >= config.PIP10AverageActivation ==> fa != 0 && ta != 0)
+//@     && convSpec(h, amt, fr, fa, tr, ta) <= MaxInt64
+//@
+//@ func Convert
+//@   arith checked
+//@   ensures @iff (err == nil) <==> convOK(height, amount, fromRate, fromAvg, toRate, toAvg)
+//@   ensures @exact err == nil ==> result == convSpec(height, amount, fromRate, fromAvg, toRate, toAvg)
+//@   ensures @zero_on_error err != nil ==> result == 0
+//@   ensures @value err == nil ==> result * toRate <= amount * fromRate
+//@   canary @swapped err == nil ==> result == (amount * dstRate(height, toRate, toAvg)) / srcRate(height, fromRate, fromAvg)
+//@   canary @false false
+//@   modifies nothing
+//@
+//@ spec func share(req int, bank int, total int) int = (req * bank) / total
+//@
+//@ func PayoutBig
+//@   arith checked
+//@   requires totalRequested.V >= 0
+//@   ensures @zero (requested == 0 || bank == 0 || totalRequested.V == 0) ==> result == 0
+//@   ensures @share requested != 0 && bank != 0 && totalRequested.V != 0 && requested <= totalRequested.V ==> result == share(requested, bank, totalRequested.V) && result <= bank
+//@   canary @share_unbounded requested != 0 && bank != 0 && totalRequested.V != 0 ==> result == share(requested, bank, totalRequested.V)
+//@   modifies nothing
+//@
+//@ func Payout
+//@   arith checked
+//@   ensures @zero (requested == 0 || bank == 0 || totalRequested == 0) ==> result == 0
+//@   ensures @share requested != 0 && bank != 0 && totalRequested != 0 && requested <= totalRequested ==> result == share(requested, bank, totalRequested) && result <= bank
+//@   modifies nothing
+//@
+//@ spec func conv0(h int, amt int, fr int, tr int) int = convSpec(h, amt, fr, fr, tr, tr)
+//@ spec func convOK0(h int, amt int, fr int, tr int) bool = convOK(h, amt, fr, fr, tr, tr)
+//@
+//@ func Refund
+//@   arith checked
+//@   requires inputAmount >= 0 && pegYield >= 0
+//@   requires convOK0(height, inputAmount, inputRate, pegRate) && pegYield <= conv0(height, inputAmount, inputRate, pegRate)
+//@   ensures @exact result == conv0(height, conv0(height, inputAmount, inputRate, pegRate) - pegYield, pegRate, inputRate)
+//@   ensures @value pegYield * pegRate + result * inputRate <= inputAmount * inputRate
+//@   ensures @nonneg result >= 0
+//@   canary @more result * inputRate > inputAmount * inputRate
+//@   modifies nothing
